@@ -31,7 +31,8 @@ type cfgIn struct {
 	AtoMS      int64    `json:"ato_ms"`      // 0: none
 	Mode       string   `json:"mode"`        // number | tlt ($Time$) | tlnr (timeline with $Number$)
 	ChunkDurMS int64    `json:"chunkdur_ms"` // 0: not chunked
-	TimeSubs   []string `json:"timesubs,omitempty"`
+	TimeSubs   []string `json:"timesubs,omitempty"`      // timesubsstpp_<langs>
+	TimeSubsW  []string `json:"timesubs_wvtt,omitempty"` // timesubswvtt_<langs>
 }
 
 func msStr(ms int64) string { return strconv.FormatFloat(float64(ms)/1000, 'f', -1, 64) }
@@ -61,6 +62,9 @@ func (c cfgIn) prefix() string {
 	}
 	if len(c.TimeSubs) > 0 {
 		fmt.Fprintf(&sb, "timesubsstpp_%s/", strings.Join(c.TimeSubs, ","))
+	}
+	if len(c.TimeSubsW) > 0 {
+		fmt.Fprintf(&sb, "timesubswvtt_%s/", strings.Join(c.TimeSubsW, ","))
 	}
 	return sb.String()
 }
